@@ -107,6 +107,9 @@ def tagData : Bytes := [0x64, 0x61, 0x74, 0x61]
 /-- requests above this are refused by the harness allocator (`err:alloc`); DESIGN §5.1 -/
 def allocCap : Nat := 1073741824
 def M32 : Nat := 4294967295
+/-- the harness allocator grants a request for `n` items of `size` bytes -/
+def fits (n size : Nat) : Bool := decide (n * size ≤ allocCap)
+theorem fits_iff {n size : Nat} : fits n size = true ↔ n * size ≤ allocCap := by simp [fits]
 
 /-! ## the cross-field rules (property C10), in ℕ -/
 
@@ -181,29 +184,35 @@ def animOfParts (hd : Bytes) (frs : List Frame) (ucs : List UnknownContainer) : 
     the size-prefixed unknown container; each `resize` is an allocation of attacker-chosen size -/
 def animP : Parser Animation :=
   Parser.bind (Parser.take 36) fun hd =>
-  Parser.bind (Parser.guard (decide (decU32 (hd.drop 32) * Gen.Layout.size_Frame ≤ allocCap)) .alloc) fun _ =>
+  Parser.bind (Parser.guard (fits (decU32 (hd.drop 32)) Gen.Layout.size_Frame) .alloc) fun _ =>
   Parser.bind (Parser.many frameP (decU32 (hd.drop 32))) fun frs =>
   Parser.bind Parser.u32 fun nuc =>
-  Parser.bind (Parser.guard (decide (nuc * Gen.Layout.size_UnknownContainer ≤ allocCap)) .alloc) fun _ =>
+  Parser.bind (Parser.guard (fits (nuc) Gen.Layout.size_UnknownContainer) .alloc) fun _ =>
   Parser.bind (Parser.many ucP nuc) fun ucs =>
   Parser.pure (animOfParts hd frs ucs)
+
+def tagOk (sh : Bytes) : Bool := sh.take 4 == tagCPAL
+def imagesOk (np : Nat) (ims : List ImageMeta) : Bool := ims.all (imageOk np)
+/-- `VerifyCountsMatchHeader` (the third comparison there is between a value and itself) -/
+def totalsOk (ans : List Animation) (tot : Bytes) : Bool :=
+  totalFrames ans == decU32 tot && totalLayers ans == decU32 (tot.drop 4)
 
 /-- `ArtFile::Read`: palettes, image table (validated at once), animation totals, animations, totals cross-check.
     Returns the palette headers as read next to the object (the object itself does not keep them). -/
 def readFull : Parser (List Bytes × ArtFile) :=
   Parser.bind (Parser.take 8) fun sh =>
-  Parser.bind (Parser.guard (sh.take 4 == tagCPAL)) fun _ =>
-  Parser.bind (Parser.guard (decide (decU32 (sh.drop 4) * Gen.Layout.size_Palette8Bit ≤ allocCap)) .alloc) fun _ =>
+  Parser.bind (Parser.guard (tagOk sh)) fun _ =>
+  Parser.bind (Parser.guard (fits (decU32 (sh.drop 4)) Gen.Layout.size_Palette8Bit) .alloc) fun _ =>
   Parser.bind (Parser.many paletteP (decU32 (sh.drop 4))) fun hps =>
   Parser.bind Parser.u32 fun ni =>
-  Parser.bind (Parser.guard (decide (ni * Gen.Layout.size_ImageMeta ≤ allocCap)) .alloc) fun _ =>
+  Parser.bind (Parser.guard (fits (ni) Gen.Layout.size_ImageMeta) .alloc) fun _ =>
   Parser.bind (Parser.many imageP ni) fun ims =>
-  Parser.bind (Parser.guard (ims.all (imageOk hps.length))) fun _ =>
+  Parser.bind (Parser.guard (imagesOk hps.length ims)) fun _ =>
   Parser.bind Parser.u32 fun na =>
-  Parser.bind (Parser.guard (decide (na * Gen.Layout.size_Animation ≤ allocCap)) .alloc) fun _ =>
+  Parser.bind (Parser.guard (fits (na) Gen.Layout.size_Animation) .alloc) fun _ =>
   Parser.bind (Parser.take 12) fun tot =>
   Parser.bind (Parser.many animP na) fun ans =>
-  Parser.bind (Parser.guard (totalFrames ans == decU32 tot && totalLayers ans == decU32 (tot.drop 4))) fun _ =>
+  Parser.bind (Parser.guard (totalsOk ans tot)) fun _ =>
   Parser.pure (hps.map (·.1), ⟨hps.map (·.2), ims, ans, decU32 (tot.drop 8)⟩)
 
 /-- the object `ArtFile::Read` returns (trailing bytes are not looked at) -/
